@@ -148,7 +148,8 @@ def units(ctx):
         ctx.ob("R20.4", "biot_savart_2d unit handling", False, detail=str(e), where=f.fq, construct="biot_savart_2d units",
                message=f"dimension error: {e}", consequence="DimensionalityError or wrong SI factor")
         return
-    kcalls = [n for n in own_nodes(f.node) if isinstance(n, ast.Call) and norm(n.func) == "_biot_savart_2d_vector"]
+    from ..dataflow import possible_callees
+    kcalls = [n for n in own_nodes(f.node) if isinstance(n, ast.Call) and "_biot_savart_2d_vector" in possible_callees(f.node, n)]
     if len(kcalls) != 1 or len(kcalls[0].args) != 4:
         raise AnalysisError("biot_savart_2d no longer calls _biot_savart_2d_vector(eval_positions, positions, current_densities, areas)")
 
@@ -156,7 +157,7 @@ def units(ctx):
         try:
             return ip.eval(e, fr)
         except Unsupported as ex:
-            return Opaque(str(ex))
+            raise AnalysisError(f"biot_savart_2d: kernel argument `{norm(e)[:60]}` outside the supported fragment: {ex}")
     ev, pos, cd, ar = [val(a) for a in kcalls[0].args]
     kL, kI = ip.kL, ip.kI
     ok = isinstance(ev, Cols) and len(ev.cols) == 3 and ev.cols[0] == T.real("x") * kL and ev.cols[2] == T.real("z") * kL
@@ -237,31 +238,21 @@ def decomposition(ctx):
 
 
 def parts_converted(ctx):
-    """R20.9: each value stored in the returned table / appended to the returned list passes through `.to(units)` or
-    `convert_field(., units, ...)` on every path from the function entry, and is only stripped of its units afterwards."""
+    """R20.9: every part of what is returned - an entry stored in / appended to the returned container, an argument of the returned
+    tuple constructor, an element of a returned literal, an operand of a returned sum - is, on every path, the result of
+    `.to(units)` / `convert_field(., units, ...)`, possibly stripped of its units afterwards (`.magnitude`).  Parts are followed
+    backwards along reaching definitions (flow-sensitive), whatever way the container is built."""
     from ..cfg import build_cfg, parent_map
-    from ..dataflow import stmt_of
+    from ..dataflow import stmt_of, reaching_defs
     repo = ctx.repo
     for qual in ("Solution.vector_potential_at_position", "Solution.field_at_position"):
         f = repo.func(SOLN, qual)
         fn = f.node
-        if "units" not in [a.arg for a in fn.args.args + fn.args.kwonlyargs]:
+        params = [a.arg for a in fn.args.args + fn.args.kwonlyargs]
+        if "units" not in params:
             raise AnalysisError(f"{qual} no longer takes `units`")
         cfg = build_cfg(fn)
         pm = parent_map(fn)
-        sinks = []        # (stmt, value Name)
-        for n in own_nodes(fn):
-            if isinstance(n, ast.Assign) and isinstance(n.targets[0], ast.Subscript) and isinstance(n.value, ast.Name) \
-                    and isinstance(n.targets[0].value, ast.Name):
-                sinks.append((n, n.value.id, f"{norm(n.targets[0])}"))
-            if isinstance(n, ast.Call) and isinstance(n.func, ast.Attribute) and n.func.attr == "append" and len(n.args) == 1 \
-                    and isinstance(n.args[0], ast.Name) and isinstance(n.func.value, ast.Name):
-                sinks.append((stmt_of(n, pm), n.args[0].id, norm(n)))
-        # keep the sinks that feed the returned container
-        returned = {norm(r.value) for r in own_nodes(fn) if isinstance(r, ast.Return) and isinstance(r.value, ast.Name)}
-        sinks = [(st, v, txt) for st, v, txt in sinks if any(txt.startswith(r + "[") or txt.startswith(r + ".append") for r in returned)]
-        if not sinks:
-            raise AnalysisError(f"{qual}: no part is stored into the returned container")
 
         def converts(value) -> bool:
             for c in ast.walk(value):
@@ -271,40 +262,124 @@ def parts_converted(ctx):
                     if norm(c.func).split(".")[-1] == "convert_field" and len(c.args) >= 2 and norm(c.args[1]) == "units":
                         return True
             return False
-        for st, v, txt in sinks:
-            conv, other = set(), []
-            for n in cfg.nodes:
-                if n.kind == "stmt" and isinstance(n.ast, ast.Assign) and any(isinstance(t, ast.Name) and t.id == v for t in n.ast.targets):
-                    if converts(n.ast.value):
-                        conv.add(n.id)
-                    elif norm(n.ast.value) != f"{v}.magnitude":
-                        other.append(n.id)
-            sink = cfg.node_of(st).id
-            if not conv:
-                # the part reaches the container through a shape this rule does not follow (nested function, dict literal ...):
-                # if the function converts to `units` somewhere the question is open (analysis error), otherwise it is a violation
-                anywhere = any(converts(x) for x in ast.walk(fn) if isinstance(x, ast.expr))
-                if anywhere:
-                    raise AnalysisError(f"{qual}: cannot relate the value stored by `{txt}` to the unit conversions of the function "
-                                        f"(code shape outside the fragment of R20.9)")
-            wit = cfg.path(cfg.entry, sink, skip=conv, skip_edges=("exc",))
-            # a non-converting redefinition between the conversion and the sink undoes it
-            undone = None
-            for c_ in conv:
-                for o in other:
-                    p1 = cfg.path(c_, o, skip=conv - {c_}, skip_edges=("exc",))
-                    p2 = cfg.path(o, sink, skip=conv, skip_edges=("exc",)) if p1 is not None else None
-                    if p1 is not None and p2 is not None:
-                        undone = cfg.describe_path(p2)[-4:]
-            ok = wit is None and bool(conv) and undone is None
-            ctx.ob("R20.9", f"{qual}: `{txt}` holds a value converted to `units` on every path", ok,
-                   detail={"conversions": len(conv), "path_without_conversion": cfg.describe_path(wit)[-8:] if wit else None, "undone": undone},
-                   where=f.fq, construct=f"unit conversion of the part stored by `{txt}`", loc=loc(f, st),
-                   message=f"`{txt}` can be reached without converting `{v}` to the requested units "
-                           f"({'no conversion at all' if not conv else 'a path around `.to(units)` / convert_field exists'})",
+
+        # ---- the parts of the returned value ------------------------------------------------------------------------
+        found = []           # (part expression, statement where it is read, description)
+        seen = set()
+
+        def parts(e, at):
+            if isinstance(e, ast.Starred):
+                return parts(e.value, at)
+            if isinstance(e, ast.Name):
+                key = (e.id, id(at))
+                if key in seen:
+                    return
+                seen.add(key)
+                grew = False
+                for n in own_nodes(fn):          # entries stored into / appended to the container
+                    if isinstance(n, ast.Assign):
+                        for t in n.targets:
+                            if isinstance(t, ast.Subscript) and isinstance(t.value, ast.Name) and t.value.id == e.id:
+                                found.append((n.value, n, norm(t)))
+                                grew = True
+                    if isinstance(n, ast.Call) and isinstance(n.func, ast.Attribute) and isinstance(n.func.value, ast.Name) \
+                            and n.func.value.id == e.id and n.func.attr in ("append", "insert") and n.args:
+                        found.append((n.args[-1], stmt_of(n, pm), norm(n)[:60]))
+                        grew = True
+                for st, v in reaching_defs(fn, e.id, at, cfg):
+                    if v is None:
+                        continue
+                    if isinstance(v, (ast.Dict, ast.List, ast.Tuple, ast.ListComp, ast.GeneratorExp, ast.DictComp)) or (
+                            isinstance(v, ast.Call) and (norm(v.func).split(".")[-1][:1].isupper() or norm(v.func) in ("dict", "list", "tuple", "sum"))):
+                        parts(v, st)
+                    elif not grew:
+                        found.append((v, st, f"{e.id} = {norm(v)[:40]}"))
+                return
+            if isinstance(e, ast.Dict):
+                for k, v in zip(e.keys, e.values):
+                    found.append((v, at, f"{{{norm(k) if k is not None else '**'}: ...}}")) if k is not None else parts(v, at)
+                return
+            if isinstance(e, (ast.List, ast.Tuple)):
+                for v in e.elts:
+                    if isinstance(v, ast.Starred):
+                        parts(v.value, at)
+                    else:
+                        found.append((v, at, f"element {norm(v)[:40]}"))
+                return
+            if isinstance(e, (ast.ListComp, ast.GeneratorExp)):
+                found.append((e.elt, at, f"element {norm(e.elt)[:40]} of a comprehension"))
+                return
+            if isinstance(e, ast.DictComp):
+                found.append((e.value, at, f"value {norm(e.value)[:40]} of a comprehension"))
+                return
+            if isinstance(e, ast.Call):
+                nm = norm(e.func)
+                if nm in ("sum", "np.sum", "numpy.sum", "math.fsum", "list", "tuple", "dict") or nm.split(".")[-1][:1].isupper():
+                    for a_ in e.args:
+                        if isinstance(a_, (ast.Name, ast.Starred, ast.Dict, ast.List, ast.Tuple, ast.ListComp, ast.GeneratorExp, ast.DictComp)) \
+                                or (isinstance(a_, ast.Call) and isinstance(a_.func, ast.Attribute) and a_.func.attr in ("values",)):
+                            if nm.split(".")[-1][:1].isupper() and isinstance(a_, ast.Name):
+                                found.append((a_, at, f"{nm}(... {a_.id} ...)"))
+                            else:
+                                parts(a_, at)
+                        else:
+                            found.append((a_, at, f"{nm}(... {norm(a_)[:30]} ...)"))
+                    for k in e.keywords:
+                        found.append((k.value, at, f"{nm}({k.arg}=...)")) if k.arg is not None else parts(k.value, at)
+                    return
+                if isinstance(e.func, ast.Attribute) and e.func.attr == "values" and not e.args:
+                    return parts(e.func.value, at)
+            if isinstance(e, ast.BinOp) and isinstance(e.op, ast.Add):
+                parts(e.left, at)
+                parts(e.right, at)
+                return
+            found.append((e, at, norm(e)[:50]))
+        for r in own_nodes(fn):
+            if isinstance(r, ast.Return) and r.value is not None:
+                parts(r.value, r)
+        # the same part is found through `return sum(c)` and `return c`
+        uniq = {}
+        for e, at, txt in found:
+            uniq.setdefault((id(e), id(at)), (e, at, txt))
+        found = list(uniq.values())
+        if not found:
+            raise AnalysisError(f"{qual}: no part is stored into the returned container")
+
+        # ---- each part is converted on every path -----------------------------------------------------------------------
+        def converted(e, at, depth=0, trail=()):
+            """None if converted on every path, else a description of the unconverted source"""
+            if depth > 12:
+                raise AnalysisError(f"{qual}: definition chain too deep for R20.9")
+            if isinstance(e, ast.Attribute) and e.attr in ("magnitude", "m"):
+                return converted(e.value, at, depth + 1, trail)
+            if isinstance(e, ast.IfExp):
+                return converted(e.body, at, depth + 1, trail) or converted(e.orelse, at, depth + 1, trail)
+            if isinstance(e, ast.Name):
+                if e.id in params:
+                    return f"parameter {e.id}"
+                defs = reaching_defs(fn, e.id, at, cfg)
+                if not defs:
+                    raise AnalysisError(f"{qual}: no definition of `{e.id}` reaches L{at.lineno} (code shape outside the fragment of R20.9)")
+                for st, v in defs:
+                    if v is None:
+                        raise AnalysisError(f"{qual}: `{e.id}` is bound by `{norm(st)[:50]}` (code shape outside the fragment of R20.9)")
+                    if (id(st), e.id) in trail:
+                        continue
+                    why = converted(v, st, depth + 1, trail + ((id(st), e.id),))
+                    if why:
+                        return why
+                return None
+            if converts(e):
+                return None
+            return f"L{getattr(e, 'lineno', at.lineno)}: `{norm(e)[:60]}`"
+        for e, at, txt in found:
+            why = converted(e, at)
+            ctx.ob("R20.9", f"{qual}: `{txt}` holds a value converted to `units` on every path", why is None,
+                   detail={"unconverted_source": why}, where=f.fq, construct=f"unit conversion of the part stored by `{txt}`", loc=loc(f, at),
+                   message=f"`{txt}` can be reached without converting its value to the requested units: it can hold {why}",
                    consequence="for some flag combination (e.g. with_units=False and non-default units) one part is returned in the default "
                                "units while the others are converted: the total is not the sum of the correctly converted parts",
-                   witness={"path": cfg.describe_path(wit)[-8:] if wit else undone})
+                   witness={"unconverted": why})
 
 
 def loop_potential(ctx):
@@ -368,26 +443,51 @@ def distances(ctx):
         ctx.ob("R20.7", f"{name}: out[i,j] == {'|' if root else ''}XA_i - XB_j{'|' if root else '|^2'} over all pairs", ok,
                detail=str(sm.stores[0].value)[:200] if sm.stores else None, where=f.fq, construct=name, loc=loc(f, f.node),
                message=f"{name} computes {str(sm.stores[0].value)[:150] if sm.stores else None}", consequence="vector potentials use wrong distances")
+    # the dispatch of cdist, followed for every (dimension, metric) pair (pvs/smallstep.py): an if-chain, a table of kernels ...
+    from ..smallstep import Machine, Opaque as SOpaque, module_constants
     f = repo.func("tdgl.distance", "cdist")
-    table = {}
-    for n in own_nodes(f.node):
-        if isinstance(n, ast.Return) and isinstance(n.value, ast.Call):
-            pm = __import__("pvs.cfg", fromlist=["parent_map"]).parent_map(f.node)
-            from ..cfg import guards_of
-            g = [("" if br == "true" else "not ") + norm(x.test) for x, br in guards_of(f.node, n, pm) if isinstance(x, ast.If)]
-            table[norm(n.value.func)] = g
-    want = {"euclidean_distance_2d": ["XA.shape[1] == 2", "metric == 'euclidean'"],
-            "sqeuclidean_distance_2d": ["XA.shape[1] == 2"],
-            "euclidean_distance_3d": ["not XA.shape[1] == 2", "XA.shape[1] == 3", "metric == 'euclidean'"],
-            "sqeuclidean_distance_3d": ["not XA.shape[1] == 2", "XA.shape[1] == 3"]}
-    if set(table) != set(want):
-        raise AnalysisError(f"cdist no longer dispatches to the four kernels through an if-chain of direct calls (found {sorted(table)}): "
-                            "the dispatch cannot be read off the code shape")
-    ok = set(table) == set(want) and all("euclidean'" in " ".join(table[k]) for k in table if not k.startswith("sq")) \
-        and all(("== 2" in " ".join(v)) != ("== 3" in " ".join(v)) or "not XA.shape[1] == 2" in v for v in table.values()) \
-        and all(("3d" in k) == any("== 3" in x and not x.startswith("not") for x in v) for k, v in table.items())
-    ctx.ob("R20.7", "cdist dispatch: (2,euclid)->e2d, (2,sq)->sq2d, (3,euclid)->e3d, (3,sq)->sq3d", ok, detail=table, where=f.fq,
-           construct="cdist dispatch", loc=loc(f, f.node), message=f"dispatch table {table}", consequence="a metric/dimension pair is served by the wrong kernel")
+    kernels = {"euclidean_distance_2d", "sqeuclidean_distance_2d", "euclidean_distance_3d", "sqeuclidean_distance_3d"}
+    params = [a.arg for a in f.node.args.args]
+    if params[:2] != ["XA", "XB"] or "metric" not in params:
+        raise AnalysisError("cdist no longer has the signature (XA, XB, metric)")
+    consts = module_constants(f.module.tree)
+    table, bad = {}, []
+    for da, db, metric in [(2, 2, "euclidean"), (2, 2, "sqeuclidean"), (3, 3, "euclidean"), (3, 3, "sqeuclidean"),
+                           (4, 4, "euclidean"), (1, 1, "sqeuclidean"), (2, 3, "euclidean"), (3, 2, "sqeuclidean"), (2, 2, "cityblock")]:
+        called = []
+
+        def attrs(text, da=da, db=db):
+            if text == "XA.shape":
+                return (SOpaque("n"), da)
+            if text == "XB.shape":
+                return (SOpaque("m"), db)
+            if text in ("XA.ndim", "XB.ndim"):
+                return 2
+            return NotImplemented
+
+        def call(m, node, name, args, kwargs, called=called):
+            target = m.ev(node.func) if isinstance(node.func, ast.Name) else None
+            nm = target.text if isinstance(target, SOpaque) else name
+            if nm in kernels:
+                called.append((nm, [a.text if isinstance(a, SOpaque) else repr(a) for a in args]))
+                return SOpaque(f"result of {nm}")
+            return NotImplemented
+        env = dict(consts)
+        env.update({"XA": SOpaque("XA"), "XB": SOpaque("XB"), "metric": metric})
+        kind, val = Machine(env, attrs, call, fuel=16).run_function(f.node)
+        key = f"({da},{db},{metric})"
+        if da == db and da in (2, 3) and metric in ("euclidean", "sqeuclidean"):
+            want_k = f"{'' if metric == 'euclidean' else 'sq'}euclidean_distance_{da}d"
+            table[key] = [c[0] for c in called]
+            if kind != "return" or called != [(want_k, ["XA", "XB"])] or val != SOpaque(f"result of {want_k}"):
+                bad.append(f"{key}: {'raises ' + str(val) if kind == 'raise' else 'calls ' + str(called)}, expected {want_k}(XA, XB)")
+        else:
+            table[key] = kind if kind == "raise" else [c[0] for c in called]
+            if kind != "raise":
+                bad.append(f"{key}: returns {val!r} instead of raising")
+    ctx.ob("R20.7", "cdist dispatch: (2,euclid)->e2d, (2,sq)->sq2d, (3,euclid)->e3d, (3,sq)->sq3d; anything else raises", not bad, detail=table,
+           where=f.fq, construct="cdist dispatch", loc=loc(f, f.node), message=f"dispatch: {bad[:2]}",
+           consequence="a metric/dimension pair is served by the wrong kernel")
 
 
 def input_purity(ctx):
